@@ -66,7 +66,12 @@ pub fn gen_fastpath_pdu(ctx: &mut Ctx, max_total: usize, want_bitmap: bool) -> (
                 }
                 // leave space for the remaining rectangles
                 let share = if nrect > 100 { avail.min(40) } else if ctx.chance("rect_big", 1, 4) { avail } else { avail.min(600) };
-                let r = gen_rect(ctx, share);
+                // a server may send the very same rectangle twice in a row (a cursor blinking, a repaint): both are to be delivered
+                let prev: Option<Rect> = rs.last().or(rects.last()).cloned();
+                let r = match prev {
+                    Some(p) if rect_wire_len(&p) <= avail && ctx.chance("rect_repeats_previous", 1, 8) => { ctx.probe("identical_rectangle_repeated"); p }
+                    _ => gen_rect(ctx, share),
+                };
                 avail -= rect_wire_len(&r);
                 rs.push(r);
             }
